@@ -18,9 +18,9 @@ func (c17) Technique() string {
 }
 func (c17) Runs(tier string) int {
 	if tier == "thorough" {
-		return 1000000
+		return 4500000
 	}
-	return 100000
+	return 300000
 }
 func (c17) Rule() string {
 	return "receiver states {zero Stack, Stack built by a seeded history then Free'd, zero Condition, Condition Free'd, Init()-only Condition, nil Auxiliary}; burst of 2-8 calls drawn from EVERY exported method (reflection) x 3 argument variants, plus ConvertStack/ConvertCondition on dead values; Free on live instances (read-only or not) and Reset on stacks holding nil elements inside the history; non-trivial = at least 3 distinct methods hit a dead receiver; distinct = hash(receiver state, method+variant sequence)"
